@@ -66,7 +66,7 @@ package shared
 // ID issued. Every new pair is lexicographically greater than the last one, whatever the wall clock does (time.Now is
 // arbitrary here).
 //@ func (generator *chunkIDGenerator) Generate() string
-//@   property C05
+//@   property C05 C11
 //@   requires generator != nil
 //@   modifies generator.epochNano, generator.sequence
 //@   ensures[!id-is-the-generator-state] cur(nextTimestamp) == generator.epochNano && cur(nextSequence) == generator.sequence
